@@ -80,7 +80,7 @@ _DECIDING = ["grid2d.array.container", "grid2d.array.pairing", "grid2d.grid.pair
              "transform.not_twice"]
 MIN_MONITORS = {"*": dict({k: 20 for k in _DECIDING}, **{"radial.plain_array_sequence": 20, "radial.callers_coordinates_untouched": 20,
                                                                       "grid1d.after_in_place_edit": 20, "kwargs.forwarded": 20, "transform.nested_once": 20,
-                                                                      "composite.container_mirrors_input": 20})}
+                                                                      "composite.container_mirrors_input": 20, "guarded.container_mirrors_input": 20})}
 
 RADIAL_MIN = {"VerifC17Small": 1e-8, "VerifC17Mid": 0.3, "VerifC17Big": 2.5}
 
@@ -221,6 +221,23 @@ def make_profiles(aa):
             @dec.to_array
             def f_parts_list(self, grid, *args, **kwargs):
                 return [self.f_array(grid), 3.0 * self.f_array(grid)]
+
+            # -- public methods guarded by the radial minimum that delegate to the other decorated methods
+            @dec.relocate_to_radial_minimum
+            def f_guarded_array(self, grid, *args, **kwargs):
+                return self.f_array(grid)
+
+            @dec.relocate_to_radial_minimum
+            def f_guarded_list(self, grid, *args, **kwargs):
+                return self.f_array_list(grid)
+
+            @dec.relocate_to_radial_minimum
+            def f_guarded_grid(self, grid, *args, **kwargs):
+                return self.f_grid(grid)
+
+            @dec.relocate_to_radial_minimum
+            def f_guarded_vector(self, grid, *args, **kwargs):
+                return self.f_vector(grid)
 
             @dec.relocate_to_radial_minimum
             def f_moved_only(self, grid, *args, **kwargs):
@@ -425,6 +442,37 @@ def check_composite(ctx, p, grid, W, is_container):
                   result_type=[type(q).__name__ for q in res] if isinstance(res, list) else type(res).__name__, expected=exp, **W)
 
 
+def check_guarded(ctx, aa, prof_name, p, grid, gin, W, kinds, wrap_ok):
+    """The radial-minimum guard as the OUTER decorator of methods that delegate to to_array / to_grid / to_vector_yx methods: the
+    container still mirrors the caller's grid (type, mask), entry k belongs to coordinate k of the relocated grid."""
+    mn = RADIAL_MIN[prof_name]
+    r = np.sqrt(gin[:, 0] ** 2 + gin[:, 1] ** 2)
+    for meth, cls_, val in (("f_guarded_array", kinds[0], lambda g: p.tags.t(g)), ("f_guarded_grid", kinds[1], lambda g: p.tags.pair(g)),
+                            ("f_guarded_vector", kinds[2], lambda g: p.tags.pair(g)), ("f_guarded_list", kinds[0], None)):
+        ok, res, log = call_logged(ctx, p, "guarded.exception", getattr(p, meth), grid)
+        if not ok or len(log) != 1 or log[0][1].shape != gin.shape:
+            if ok:
+                ctx.check(False, "guarded.container_mirrors_input", method=meth, calls=[(t, a.shape) for (t, a) in log], **W)
+            continue
+        got = log[0][1]
+        far = r >= mn
+        moved_ok = np.array_equal(got[far], gin[far])
+        near = (r > 0) & (r < mn)
+        if near.any():
+            rr = np.sqrt(got[near, 0] ** 2 + got[near, 1] ** 2)
+            moved_ok = moved_ok and bool(np.all(np.abs(rr - mn) <= 1e-12 * mn))
+        items = res if isinstance(res, list) else [res]
+        exps = [val(got)] if val is not None else [p.tags.t(got, 0), p.tags.t(got, 1), -2.0 * p.tags.t(got, 0)]
+        good = (val is not None or isinstance(res, list)) and len(items) == len(exps)
+        for q, e in zip(items, exps):
+            good = good and isinstance(q, cls_) and wrap_ok(q)
+            if good:
+                v = _np(q.slim) if hasattr(q, "slim") else _np(q)
+                good = v.shape == e.shape and np.array_equal(v, e)
+        ctx.check(good and moved_ok, "guarded.container_mirrors_input", method=meth, grid_type=type(grid).__name__, radial_minimum=mn,
+                  result_type=[type(q).__name__ for q in items], received=got, **W)
+
+
 def check_kwargs_and_nesting(ctx, p, grid, W, frame=None):
     """Keyword parameters reach the user function for every grid kind; a function that delegates to another transform-decorated
     method (forwarding **kwargs) sees coordinates moved to the profile frame exactly once, whether the caller omits
@@ -575,6 +623,7 @@ def check_grid2d(ctx, i):
                                lambda q: same_mask2d(q, m, scales, origin))
     check_kwargs_and_nesting(ctx, p, grid, W, frame=gin - np.asarray(p.centre))
     check_composite(ctx, p, grid, W, lambda q: isinstance(q, aa.Array2D) and same_mask2d(q, m, scales, origin))
+    check_guarded(ctx, aa, prof_name, p, grid, gin, W, (aa.Array2D, aa.Grid2D, aa.VectorYX2D), lambda q: same_mask2d(q, m, scales, origin))
     cls = ["grid2d", "mask:" + fam, "profile:" + prof_name, "coords:" + ("arbitrary" if arbitrary else "pixel_centres"),
            "centre_mode:%d" % mode, "angle:" + ("none" if angle is None else "set")]
     if not m.any():
@@ -660,6 +709,7 @@ def check_irregular(ctx, i):
     check_radial_and_transform(ctx, prof_name, p, grid, gin, W, aa.Grid2DIrregular, lambda q: True)
     check_kwargs_and_nesting(ctx, p, grid, W, frame=gin - np.asarray(p.centre))
     check_composite(ctx, p, grid, W, lambda q: isinstance(q, aa.ArrayIrregular))
+    check_guarded(ctx, aa, prof_name, p, grid, gin, W, (aa.ArrayIrregular, aa.Grid2DIrregular, aa.VectorYX2DIrregular), lambda q: True)
     ctx.case("irregular", gin, prof_name, centre, angle, repr(tags.c), nontrivial=n >= 2,
              cls=["irregular", "profile:" + prof_name, "points:%s" % ("1" if n == 1 else "2-5" if n <= 5 else "6+"),
                   "centre:" + ("origin" if centre == (0.0, 0.0) else "shifted")],
